@@ -38,6 +38,7 @@ const (
 	oSend
 	oSendEnd
 	oRegCount
+	oSettled // the harness waited for the handler to come to rest (b = 1: the wait timed out)
 )
 
 // history opcodes (produced by the parent)
@@ -53,6 +54,9 @@ const (
 	hCancel              // a = client: cancel the request context
 	hRegCount            // read len(requests)
 	hStall               // a = milliseconds the harness does nothing (stalled clients stay stalled)
+	hSubHealthy          // subscribe a healthy reader: every write of this client returns at once
+	hStallClient         // a = client: its reader stops reading - the next write of this client blocks
+	hResume              // a = client: its reader reads again - the blocked write returns and so do the later ones
 )
 
 const settle = 10 * time.Second
@@ -76,6 +80,7 @@ type cstate struct {
 	cancel    context.CancelFunc
 	rel       chan bool
 	blocked   bool
+	auto      bool // healthy reader: writes return at once
 	exited    bool
 	cancelled bool
 	broken    bool
@@ -152,7 +157,7 @@ func (w *gw) Write(p []byte) (int, error) {
 	if ev == 0 {
 		cs.firstPing = true
 	}
-	if h.auto || (ev == 0 && !first) {
+	if h.auto || cs.auto || (ev == 0 && !first) {
 		h.logL(oRelease, cs.id, 1)
 		h.cond.Broadcast()
 		h.mu.Unlock()
@@ -211,8 +216,13 @@ func (h *H) stableL() bool {
 	return true
 }
 
+// settle gives the handler time to come to rest - every client that is not stalled in a write has written
+// every event it is owed, every cancelled or broken client has returned - and records that it did so (oSettled):
+// the parent judges the model state at these points (coq/model/Sse.v: audit, stableb). Stalled writers stay stalled.
 func (h *H) settle(what string) {
+	timedOut := 0
 	if !h.wait(settleDur(), h.stableL) {
+		timedOut = 1
 		atomic.AddInt32(&trouble, 1)
 		h.mu.Lock()
 		for _, cs := range h.clients {
@@ -222,6 +232,11 @@ func (h *H) settle(what string) {
 		}
 		h.mu.Unlock()
 	}
+	h.mu.Lock()
+	if !h.abort {
+		h.logL(oSettled, 0, timedOut)
+	}
+	h.mu.Unlock()
 }
 
 func (h *H) subscribe(mode int) {
@@ -256,8 +271,28 @@ func (h *H) subscribe(mode int) {
 		h.mu.Unlock()
 		return
 	}
-	if mode == hSubFree {
+	if mode == hSubHealthy {
+		h.mu.Lock()
+		cs.auto = true
+		h.mu.Unlock()
+	}
+	if mode == hSubFree || mode == hSubHealthy {
 		h.release(cs.id, true)
+	}
+}
+
+// setReader makes client c's reader healthy (writes return at once; a blocked write is let through) or stalled
+// (the next write blocks until released).
+func (h *H) setReader(c int, healthy bool) {
+	h.mu.Lock()
+	if c < 1 || c > len(h.clients) {
+		h.mu.Unlock()
+		return
+	}
+	h.clients[c-1].auto = healthy
+	h.mu.Unlock()
+	if healthy {
+		h.release(c, true)
 	}
 }
 
@@ -455,8 +490,12 @@ func runForced(in histIn) histOut {
 			a = op[1]
 		}
 		switch op[0] {
-		case hSubFree, hSubBusy, hSubCancelled:
+		case hSubFree, hSubBusy, hSubCancelled, hSubHealthy:
 			h.subscribe(op[0])
+		case hStallClient:
+			h.setReader(a, false)
+		case hResume:
+			h.setReader(a, true)
 		case hSend:
 			h.send(1, false)
 		case hBurst:
